@@ -109,7 +109,31 @@ Example rep_int_limit : representable (EdPreviewTime 2147483647) m0 = true /\
                         representable (EdPreviewTime (-2147483647)) m0 = true /\
                         representable (EdPreviewTime (-2147483648)) m0 = false.
 Proof. repeat split; reflexivity. Qed.
-Example rep_bookmarks : representable (EdBookmarks [0; -5; 2147483647]) m0 = true. Proof. reflexivity. Qed.
+(* bookmarks: any list of numbers within +-(2^31-1), like every other number of the format
+   (D10 repaired: the decoder used to read the elements with plain str::parse::<i32>, which
+   accepted -2147483648) *)
+Example rep_bookmarks :
+  representable (EdBookmarks [0; -5; 2147483647; -2147483647]) m0 = true /\
+  representable (EdBookmarks []) m0 = true /\
+  representable (EdBookmarks [-2147483648]) m0 = false /\
+  representable (EdBookmarks [1; 2147483648]) m0 = false.
+Proof. repeat split; reflexivity. Qed.
+Example pin_bookmark_condition : forall l, representable (EdBookmarks l) m0 = forallb i32_ok l.
+Proof. reflexivity. Qed.
+(* the edit survives, through the encoder, for every number formatting: the bookmarks
+   lead the dump of the editor section (count, then the values) *)
+Example bookmark_edit_survives :
+  forall fmt_f64 fmt_f32 fmt_int, fmt_ok fmt_f64 fmt_f32 fmt_int ->
+  firstn 5 (dump_editor (run_lines parse_editor editor_default
+                 (map (render fmt_f64 fmt_f32 fmt_int)
+                      (body (enc_editor (bmv_editor (apply_edit (EdBookmarks [0; -5; 2147483647; -2147483647]) m0)))))))
+  = [4; 0; -5; 2147483647; -2147483647].
+Proof.
+  intros f64 f32 fi Hfmt.
+  destruct (edit_survives f64 f32 fi Hfmt (EdBookmarks [0; -5; 2147483647; -2147483647]) m0 m0_ok eq_refl)
+    as [(_ & He & _) _].
+  rewrite He. vm_compute. reflexivity.
+Qed.
 Example rep_f64_limit : representable (EdDistanceSpacing (D.of_Z 2147483647)) m0 = true /\
                         representable (EdDistanceSpacing (D.of_Z 2147483648)) m0 = false /\
                         representable (EdTimelineZoom D.nan) m0 = false.
